@@ -151,7 +151,7 @@ def run(ck, facts, tier, only=None):
         nm = Sym("param", "name")
         got = cel.Ev(facts, hooks=hk4).apply_fn(fn, [nm], 0)
         src = Sym("m", "split", vkey(nm), (vkey(Sym("lit", ",")),))
-        want = Sym("ctor", "Ok", Sym("mut", "push", vkey(Tup([])), (vkey(Sym("lookup", vkey(Sym("at", vkey(src), Poly.atom("i0").key())))),)))
+        want = Sym("ctor", "Ok", cel.Coll(cel.Seq(src, lambda idx: Sym("lookup", vkey(Sym("at", vkey(src), idx.key()))))))      # pieces.map(lookup).collect(), as a push loop or an iterator chain
         ck.check(r3, "parse_cals", vkey(got) == vkey(want), "parse_cals is not: for each ','-piece push get_calendar_by_name(piece)?", where, detail=cel.vfmt(got)[:400],
                  sample="for piece in name.split(','): push(get_calendar_by_name(piece)?)")
         tries = [e for e in hir.walk(r["body"]) if e.get("k") == "try" and any(x.get("k") == "call" and x["f"].get("def", "").endswith("get_calendar_by_name") for x in hir.walk(e))]
